@@ -657,7 +657,12 @@ class Ctx:
             "notes": self.notes,
         }
         if self.exhaustive is not None:
-            cov["exhaustive"] = self.exhaustive
+            if isinstance(self.exhaustive, bool):
+                cov["exhaustive"] = self.exhaustive
+            else:
+                # a description of the sub-spaces that were enumerated completely (the schema's
+                # "exhaustive" is a boolean about the whole run, which this is not)
+                cov["exhaustive_subspaces"] = self.exhaustive
         ev = {
             "property_id": self.prop,
             "tier": self.tier,
